@@ -392,9 +392,12 @@ func (s *state) apply(o op) outcome {
 		}
 	case propRemoveAll:
 		// documented: removes all properties and the catalog XMP metadata; succeeds if either existed
+		had := len(s.Props) > 0
 		s.Props = map[string]string{}
 		s.Std = map[string]string{} // standard entries are not properties: no longer asserted
-		return outcome{ErrIs: "ErrNoPropertyRemoved", EitherOK: true}
+		if !had {
+			return outcome{ErrIs: "ErrNoPropertyRemoved", EitherOK: true}
+		}
 	case layoutSet:
 		s.Layout = o.Value
 	case layoutReset:
